@@ -32,6 +32,7 @@ func wt[T any](name string) Type { return Type{name, func() any { return new(T) 
 // Types lists every target type the library decodes peer or stored bytes into.
 var Types = []Type{
 	wt[any]("any"), wt[cbor.RawBytes]("RawBytes"), wt[int64]("int64"), wt[uint8]("uint8"), wt[uint16]("uint16"),
+	wt[int8]("int8"), wt[int16]("int16"), wt[int32]("int32"), wt[int]("int"), wt[uint32]("uint32"), wt[uint64]("uint64"),
 	wt[[]byte]("bytes"), wt[string]("string"), wt[[16]byte]("fixed16"), wt[map[int][]byte]("map[int]bytes"),
 	wt[cbor.Bstr[int]]("Bstr[int]"), wt[cbor.Bstr[map[int][]byte]]("Bstr[map]"), wt[cbor.ByteWrap[[]byte]]("ByteWrap[bytes]"),
 	wt[cbor.ByteWrap[protocol.Hash]]("ByteWrap[Hash]"), wt[cbor.Tag[cbor.RawBytes]]("Tag[Raw]"), wt[cbor.Timestamp]("Timestamp"),
